@@ -219,6 +219,21 @@ class CmapUnit(Unit):
                 self.check_table(d1, [s], m, expected, rec, big)
             return
         self.check_table(data, subs, m, expected, rec, big)
+        if len(fmts) > 1 and not big:
+            # the same records, but ALL of them holding one and the same dict object (a caller that builds
+            # several formats from one mapping): each record must still be written in its own format
+            shared = dict(names)
+            subs2 = [_subtable(fmt, CMAP_SLOT[fmt], shared) for fmt in fmts]
+            t3 = newTable("cmap")
+            t3.tableVersion = 0
+            t3.tables = list(subs2)
+            try:
+                data3 = t3.compile(font)
+            except Exception as e:
+                rec.violation("cmap:shared-dict:compile-raises:%s" % type(e).__name__, "formats %s sharing one dict: %r" % (fmts, e))
+                return
+            rec.witness("one dict shared by records of different formats")
+            self.check_table(data3, subs2, m, expected, rec, big)
 
     # -------------------------------------------------------------------------------------
     def check_table(self, data, subs, m, expected, rec, big):
